@@ -234,6 +234,21 @@ pub fn order_independent(cases: &[(String, String, Vec<String>)], kind: &str) ->
     let fwd = std::thread::scope(|s| s.spawn(|| run_all((0..n).collect())).join().unwrap());
     let bwd = std::thread::scope(|s| s.spawn(|| run_all((0..n).rev().collect())).join().unwrap());
     let mut out = Vec::new();
+    // the whole list twice in one thread: the second execution of a case must print what its first execution printed
+    let twice = std::thread::scope(|s| s.spawn(|| { let first = run_all((0..n).collect()); let second = run_all((0..n).collect()); (first, second) }).join().unwrap());
+    for ((i, first), (_, second)) in twice.0.iter().zip(twice.1.iter()) {
+        if first != second {
+            let (def, stmt, lines) = &cases[*i];
+            out.push(fail(
+                format!("second-execution:{}", kind),
+                format!("`{}` prints {:?} the first time and {:?} the second time it runs in one thread", stmt, first, second),
+                json!({"layer": "order-of-execution", "definition": def, "statement": stmt, "lines": lines, "index": i}),
+                json!(first),
+                json!(second),
+                *i as u64,
+            ));
+        }
+    }
     for (i, got) in &fwd {
         let other = bwd.iter().find(|(j, _)| j == i).map(|(_, g)| g.clone()).unwrap_or(None);
         if *got != other {
@@ -248,7 +263,7 @@ pub fn order_independent(cases: &[(String, String, Vec<String>)], kind: &str) ->
             ));
         }
     }
-    (out, 2 * n as u64)
+    (out, 4 * n as u64)
 }
 
 /// runs `cross` over a list of cases in parallel and `order_independent` over the same list; registers one layer
